@@ -526,7 +526,8 @@ def objective_zoo(rng, n, lo, up):
 
 def rand_box_solver(rng, n):
     from .evolvent_drv import rand_box
-    return rand_box(rng, n, rng.choice(["unit", "sym", "shift", "mixed", "mixed"]))
+    # (now and then a huge box, a tiny one at the origin, or sides short relative to their distance from the origin)
+    return rand_box(rng, n, rng.choice(["unit", "sym", "shift", "mixed", "mixed"] * 4 + ["wide", "tiny0", "narrowfar"]))
 
 
 def random_problem(rng, n=None):
